@@ -5,6 +5,7 @@ import ErgoProofs.Lemmas.ReachInv
 import ErgoProofs.Lemmas.Prune
 import ErgoProofs.Lemmas.PlanShape
 import ErgoProofs.Lemmas.StorageThm
+import ErgoProofs.Lemmas.InputThm
 namespace Ergo
 
 /-- a payload is accepted exactly when: non-blank epic title; body not blank if present; at least one task; every task has a
@@ -76,5 +77,12 @@ theorem C11_torn_tail_dropped {classify : Storage.Bytes → Storage.LineClass} {
     (hlen : frag.length < limit) :
     Storage.readEvents classify limit (f ++ frag) = Storage.readEvents classify limit f :=
   Storage.readEvents_fragment f frag hcl hnl hne hbad hlen
+
+
+/-- byte level, for the documents of `new` / `set` (the same reader serves `plan`): a complete document followed by anything but white space —
+    a second JSON value, stray text — is a parse error: nothing of it is applied -/
+theorem C11_second_value_rejected (t : TaskInput) (hne : Input.taskInputMembers t ≠ []) (tail : Storage.Bytes) (ht : Codec.skipWs tail ≠ []) :
+    Input.parseTaskInput (Input.encTaskInput t ++ tail) = none :=
+  Input.parseTaskInput_trailing t hne tail ht
 
 end Ergo
